@@ -870,6 +870,20 @@ class SymEx:
         if k == "Member":
             if "v" in n:
                 return Poly.const(int(n["v"]))
+            if not n.get("field"):
+                # extent constants of the small dense algebra classes read through an object (`hess.l`, `a.m`): static
+                # constexpr members whose value is the corresponding template argument
+                mt = re.match(r"^FEAT::Tiny::(Vector|Matrix|Tensor3)<[^,<>]+((?:, -?\d+)+)>::(\w+)$", n.get("qn", ""))
+                if mt:
+                    ints = [int(x) for x in re.findall(r"-?\d+", mt.group(2))]
+                    names = {"Vector": ["n", "s"], "Matrix": ["m", "n", "sm", "sn"], "Tensor3": ["l", "m", "n", "sl", "sm", "sn"]}[mt.group(1)]
+                    if mt.group(3) in names:
+                        i = names.index(mt.group(3))
+                        half = len(names) // 2
+                        if i < len(ints):
+                            return Poly.const(ints[i])
+                        if i - half < len(ints) and i >= half:
+                            return Poly.const(ints[i - half])      # stride defaults to the extent
             b = n.get("b")
             base = self.eval(b, env, fn) if b is not None else env.get("this")
             if b is not None:
@@ -1101,6 +1115,8 @@ class SymEx:
             return Poly.const(abs(c))
         if callee in ("FEAT::assertion",):
             return None
+        if k == "Call" and strip_targs(callee) in ("FEAT::Math::min", "FEAT::Math::max") and len(n.get("a", [])) == 2:
+            return self.std_algorithm("std::" + strip_targs(callee).rsplit("::", 1)[-1], n, env, fn)
         if k == "Call" and callee.startswith("std::"):
             r = self.std_algorithm(strip_targs(callee), n, env, fn)
             if r is not NotImplemented:
